@@ -4,6 +4,7 @@ import PV.Driver.Tree
 import PV.Driver.Sleep
 import PV.Driver.SockAddr
 import PV.Driver.Ini
+import PV.Driver.CondVar
 def main (args : List String) : IO UInt32 := do
   match args with
   | ["ht"] => PV.Driver.HT.run; return 0
@@ -12,4 +13,5 @@ def main (args : List String) : IO UInt32 := do
   | ["sleep"] => PV.Driver.Sleep.run; return 0
   | ["sockaddr"] => PV.Driver.SockAddr.run; return 0
   | ["ini"] => PV.Driver.Ini.run; return 0
+  | ["condvar"] => PV.Driver.CondVar.run; return 0
   | _ => IO.eprintln "usage: pvdriver <family>  (ops on stdin)"; return 2
